@@ -75,6 +75,8 @@ func main() {
 		err = core.RunEvict(w, *seed, *tier, *replay)
 	case "evict-child":
 		err = core.RunEvictChild(w, *replay, int(*seed))
+	case "raft":
+		err = core.RunRaft(w, *seed, *tier, *replay)
 	case "gen-facts":
 		err = core.GenFacts(*leanDir)
 	default:
